@@ -10,3 +10,5 @@ import Skv.Props.C19
 #print axioms C19_reopen_after_crash
 #print axioms C19_refused_only_by_live
 #print axioms C19_reopen_after_failed_open
+#print axioms C19_background_task_exits
+#print axioms notify_waiters_misses_unparked_task
